@@ -102,6 +102,12 @@ func NewRun(prop, tier string, seed int64) *Run {
 	return r
 }
 
+// ClearReplays removes replay files of earlier runs of this property, so the
+// directory only ever describes the latest run.
+func (r *Run) ClearReplays() {
+	_ = os.RemoveAll(filepath.Join(VerifDir, "replay", r.Prop))
+}
+
 // Eval counts executed cases.
 func (r *Run) Eval(n int) { atomic.AddInt64(&r.evals, int64(n)) }
 
